@@ -2,7 +2,7 @@
 From Coq Require Import List Bool ZArith Lia.
 Import ListNotations.
 From Rosed Require Import Base.Res Base.ListX Base.Utf8 Gem.Segment Gem.GString Model.Util Model.Options Model.Editor
-     Check.Common Proofs.Utf8P Proofs.C04P gen.Funcs Inst.GoFuncs Inst.GoRt gen.GemChars Inst.GoSel.
+     Check.Common Proofs.Utf8P Proofs.C04P gen.Funcs Inst.GoFuncs Inst.GoRt gen.GemChars Inst.GoSel Proofs.C18T Proofs.C18Y.
 Open Scope Z_scope.
 
 (* For every text that is the UTF-8 encoding of scalar values (i.e. every valid UTF-8
@@ -60,3 +60,15 @@ Theorem C04_chars_from_to_are_the_source : forall (C : Classifier) e p,
   go_CharsFrom e p = chars_from e p /\ go_CharsTo e p = chars_to e p.
 Proof. intros C e p. exact (conj (go_chars_from_eq e p) (go_chars_to_eq e p)). Qed.
 Print Assumptions C04_chars_from_to_are_the_source.
+
+(* "A selection never splits ... a UTF-8 sequence": of a valid text, what is selected, what
+   precedes it and what follows it in the parent are each valid UTF-8 (ref_ok r says the last two) *)
+Theorem C04_never_splits_utf8 : forall (C : Classifier) e s0 e0 r, valid_utf8 (e_text e) = true ->
+  chars e s0 e0 = Ok r -> valid_utf8 (e_text r) = true /\ ref_ok r.
+Proof.
+  intros C e s0 e0 r He E. split; [|exact (chars_ref_ok e s0 e0 r He E)].
+  destruct e as [t o ref]. cbn [e_text] in He. destruct (valid_is_encode t He) as (rs & Hs & ->).
+  pose proof (chars_spec rs o ref s0 e0 Hs) as Hc. cbv zeta in Hc. destruct (norm _ s0 e0) as [s' e']. rewrite Hc in E. injection E as <-.
+  cbn [e_text]. apply encode_valid.
+Qed.
+Print Assumptions C04_never_splits_utf8.
